@@ -1,4 +1,4 @@
-(* C03: semantic obligations for basis configurations 0 .. 63 of all_cfgs (20 gate kinds each) *)
+(* C03: semantic obligations (every canonical basis configuration) for the gate kinds of slice 0 *)
 From QV Require Import Model.Resolve Proofs.ResolveChkDefs.
-Lemma chk_sem_0 : sem_ok (slice 0) = true.
+Lemma chk_sem_0 : obls_ok (kslice 0) = true.
 Proof. vm_compute. reflexivity. Qed.
